@@ -1,6 +1,6 @@
 (* C04 — correlation estimators and the n(z) formula are applied as documented.
    Statements only; proofs are in Proofs/EstimatorsP.v (and Proofs/JackknifeP.v). *)
-From Verif Require Import Prelude Jackknife JackknifeP Estimators EstimatorsP EstimatorsRP.
+From Verif Require Import Prelude Jackknife JackknifeP Estimators EstimatorsP EstimatorsRP CorrAlgebra CorrAlgebraP.
 From Coq Require Import Reals.
 Open Scope Q_scope.
 
@@ -376,4 +376,143 @@ Example C04_concrete_weights :
        (Some ([Some (-(7 # 16)); Some 5], [[Some (-(2 # 3)); Some (-(4))]; [Some 0; None]; [Some (-(5 # 9)); Some (3 # 2)]])) = 0%nat
   /\ c04_meas_case true [0; 1; 2] 3 dd_dead None (Some ex_rd) None (st meas_pc dd_dead) None (Some (st meas_pc ex_rd)) None
        (Some ([Some (-(1 # 4)); None], [[Some (-(2 # 3)); Some (-(4))]; [Some 0; None]; [Some (-(5 # 9)); Some (3 # 2)]])) = 3%nat.
+Proof. vm_compute. repeat split; reflexivity. Qed.
+
+(* container algebra: the estimator is applied to correlation functions that are the RESULT of +, sum(),
+   * scalar, .bins[...] / .patches[...], file round trips, copies and pickles (Model/CorrAlgebra.v).  A
+   correlation function holds its pair counts in roles (dd, dr, rd, rr; each present or missing).  Every
+   operation on one container keeps the roles, *)
+Theorem C04_algebra_unary_keeps_roles : forall (f : pc -> pc) (t : terms pc), roles (tmap f t) = roles t.
+Proof. exact (@tmap_roles pc pc). Qed.
+Print Assumptions C04_algebra_unary_keeps_roles.
+
+(* a sum that succeeds holds the roles of both operands, and operands that hold different roles are refused
+   (never silently completed or truncated), *)
+Theorem C04_algebra_sum_keeps_roles : forall (t u v : terms pc),
+  tzip pc_add t u = Some v -> roles v = roles t /\ roles v = roles u.
+Proof. exact (@tzip_roles pc pc pc pc_add). Qed.
+Print Assumptions C04_algebra_sum_keeps_roles.
+
+Theorem C04_algebra_sum_refuses_mismatch : forall (t u : terms pc), roles t <> roles u -> tzip pc_add t u = None.
+Proof. exact (@tzip_mismatch pc pc pc pc_add). Qed.
+Print Assumptions C04_algebra_sum_refuses_mismatch.
+
+(* so the value of ANY expression holds exactly the roles that every one of its leaves holds: dd stays dd,
+   rr stays rr, missing stays missing *)
+Theorem C04_algebra_expression_keeps_roles : forall e t,
+  eval e = Some t -> Forall (fun l => roles l = roles t) (leaves e).
+Proof. exact eval_roles. Qed.
+Print Assumptions C04_algebra_expression_keeps_roles.
+
+(* the estimator reads its input by role: the estimate of a sum is the estimator applied to the role-wise
+   sums - Landy-Szalay of the pooled terms when rr is held, Davis-Peebles otherwise *)
+Theorem C04_estimate_of_sum : forall t u v, tadd t u = Some v ->
+  t_estimate v = match oadd (t_dd t) (t_dd u) with
+                 | Some d => Some (estimate d (oadd (t_dr t) (t_dr u)) (oadd (t_rd t) (t_rd u))
+                                            (oadd (t_rr t) (t_rr u)))
+                 | None => None
+                 end.
+Proof. exact estimate_of_sum. Qed.
+Print Assumptions C04_estimate_of_sum.
+
+Theorem C04_estimate_of_sum_ls : forall dd dd' d d' rd rd' r r' v,
+  tadd (mk_terms (Some dd) (Some d) rd (Some r)) (mk_terms (Some dd') (Some d') rd' (Some r')) = Some v ->
+  oeq (t_estimate v)
+      (Some (((dd + dd') - (d + d') - opt_or (oadd rd rd') (d + d') + (r + r')) / (r + r'))).
+Proof. exact estimate_of_sum_ls. Qed.
+Print Assumptions C04_estimate_of_sum_ls.
+
+Theorem C04_estimate_of_sum_dp : forall dd dd' dr dr' rd rd' v,
+  tadd (mk_terms (Some dd) dr rd None) (mk_terms (Some dd') dr' rd' None) = Some v ->
+  t_estimate v = Some (dp (dd + dd') (opt_or (oadd rd rd') (opt_or (oadd dr dr') 0))).
+Proof. exact estimate_of_sum_dp. Qed.
+Print Assumptions C04_estimate_of_sum_dp.
+
+(* containers: the documented term (total pair count / product of total weights) is linear in the counts -
+   the term of a sum pools the pair counts of the operands over the common weights, *)
+Theorem C04_term_of_sum : forall p q r b, pc_add p q = Some r ->
+  pc_term r b == (total (nth b (pc_counts p) []) + total (nth b (pc_counts q) []))
+                 / norm_denominator (pc_auto p) (nth b (pc_w1 p) []) (nth b (pc_w2 p) []).
+Proof. exact pc_term_add. Qed.
+Print Assumptions C04_term_of_sum.
+
+Theorem C04_term_of_sum_is_sum_of_terms : forall p q r b,
+  pc_add p q = Some r -> pc_w1 q = pc_w1 p -> pc_w2 q = pc_w2 p -> pc_term r b == pc_term p b + pc_term q b.
+Proof. exact pc_term_add_terms. Qed.
+Print Assumptions C04_term_of_sum_is_sum_of_terms.
+
+Theorem C04_term_of_multiple : forall c p b, pc_term (pc_scale c p) b == c * pc_term p b.
+Proof. exact pc_term_scale. Qed.
+Print Assumptions C04_term_of_multiple.
+
+Theorem C04_term_of_bin_selection : forall J p j,
+  (j < length J)%nat -> pc_term (pc_sel_bins J p) j = pc_term p (nth j J 0%nat).
+Proof. exact pc_term_bins. Qed.
+Print Assumptions C04_term_of_bin_selection.
+
+(* sample() of cf1 + cf2 is the estimator applied to the role-wise pooled counts, for every combination of
+   roles held, *)
+Theorem C04_sample_of_sum : forall t u v b, tzip pc_add t u = Some v ->
+  oeq (t_estimate (cf_terms v b))
+      (match opool (t_dd t) (t_dd u) b with
+       | Some d => Some (estimate d (opool (t_dr t) (t_dr u) b) (opool (t_rd t) (t_rd u) b)
+                                  (opool (t_rr t) (t_rr u) b))
+       | None => None
+       end).
+Proof. exact sum_cf_estimate. Qed.
+Print Assumptions C04_sample_of_sum.
+
+(* and sample() of cf * c is sample() of cf *)
+Theorem C04_sample_of_multiple : forall c (t : terms pc) b, ~ c == 0 ->
+  den_nonzero (t_dr (cf_terms t b)) (t_rd (cf_terms t b)) (t_rr (cf_terms t b)) ->
+  oeq (t_estimate (cf_terms (tmap (pc_scale c) t) b)) (t_estimate (cf_terms t b)).
+Proof. exact scaled_cf_same_estimate. Qed.
+Print Assumptions C04_sample_of_multiple.
+
+(* the quantifier over all combinations of roles says more than complete correlation functions do: an
+   arithmetic that rebuilds its result positionally (the counts that are present, filled into dd, dr, rd, rr
+   from the left) changes nothing exactly when no missing role precedes a present one, *)
+Theorem C04_positional_rebinding_id_iff_prefix : forall (t : terms pc),
+  rebind t = t <-> prefix_closed (roles t) = true.
+Proof. exact (@rebind_id_iff_prefix pc). Qed.
+Print Assumptions C04_positional_rebinding_id_iff_prefix.
+
+(* is indistinguishable on every expression over dd+dr, dd+dr+rd and complete correlation functions, *)
+Theorem C04_positional_rebinding_agrees_prefix : forall e,
+  Forall (fun l => prefix_closed (roles l) = true) (leaves e) -> eval_pos e = eval e.
+Proof. exact eval_pos_agrees_prefix. Qed.
+Print Assumptions C04_positional_rebinding_agrees_prefix.
+
+(* and is not the documented estimator for dd+dr+rr (every autocorrelation with RR): rr lands in the rd
+   slot, no rr is held any more, Davis-Peebles DD/RR - 1 replaces Landy-Szalay *)
+Theorem C04_positional_rebinding_refuted : exists t : terms Q,
+  roles t = [true; true; false; true] /\ roles (rebind t) = [true; true; true; false]
+  /\ oeq (t_estimate t) (Some (3 # 2)) /\ oeq (t_estimate (rebind t)) (Some (1 # 2)).
+Proof. exact rebind_refuted. Qed.
+Print Assumptions C04_positional_rebinding_refuted.
+
+Theorem C04_positional_expression_refuted : exists e,
+  option_map roles (eval e) = Some [true; true; false; true]
+  /\ terms_values (eval e) = [3 # 2]
+  /\ option_map roles (eval_pos e) = Some [true; true; true; false]
+  /\ terms_values (eval_pos e) = [1 # 2].
+Proof. exact eval_pos_refuted. Qed.
+Print Assumptions C04_positional_expression_refuted.
+
+Example C04_concrete_algebra :
+  let cf := exa_cf in                              (* dd+dr+rr, two patches, one bin *)
+  let e := X_scale (1 # 2) (X_add (X_leaf cf) (X_copy 0 (X_leaf cf))) in
+  let sel := X_patches [1%nat; 0%nat] (X_bins [0%nat] e) in
+  (* pooled and halved terms: dd = 24/4, dr = 8/4, rr = 16/4: (6 - 2 - 2 + 4) / 4; without one patch (11 - 3 - 3 + 7) / 7 *)
+  terms_values (eval e) = [3 # 2] /\ terms_values (eval sel) = [3 # 2]
+  (* status codes: the Landy-Szalay value with unchanged roles is accepted; Davis-Peebles DD/RR - 1 of a result
+     that holds rr in the rd slot is reported (value, samples, stored arrays, roles) *)
+  /\ c04_alg_case e (eval e) (Some ([Some (3 # 2)], [[Some (12 # 7)]; [Some (12 # 7)]])) = 0%nat
+  /\ c04_alg_case e (eval_pos e) (Some ([Some (1 # 2)], [[Some (4 # 7)]; [Some (4 # 7)]])) = 47%nat
+  (* operands that hold different roles: the model refuses, the implementation must raise *)
+  /\ c04_alg_refusal_case (X_add (X_leaf cf) (X_leaf (rebind cf))) true = 0%nat
+  /\ c04_alg_refusal_case (X_add (X_leaf cf) (X_leaf (rebind cf))) false = 1%nat
+  (* n(z) with dz = 1 and no autocorrelations is w_sp *)
+  /\ c04_alg_nz_case [1] e None None [Some (3 # 2)] [[Some (12 # 7)]; [Some (12 # 7)]] = 0%nat
+  /\ c04_alg_nz_case [1] e None None [Some (1 # 2)] [[Some (12 # 7)]; [Some (4 # 7)]] = 3%nat.
 Proof. vm_compute. repeat split; reflexivity. Qed.
